@@ -452,6 +452,16 @@ func tearCuts(e *rec.Event, thorough bool) []int {
 				}
 			}
 		}
+		// the boundaries in front of the LAST two records are always kept: a commit's write ends with
+		// [... APPLYDELETE records, COMMIT], and "everything but the COMMIT record is durable" is the image in which
+		// recovery has to undo applied deletes of a transaction that never committed (seeded change C02k)
+		prio := map[int]bool{}
+		for i := len(recs) - 2; i < len(recs); i++ {
+			if i >= 1 && recs[i].Off > 0 && recs[i].Off < n {
+				prio[recs[i].Off] = true
+				delete(set, recs[i].Off)
+			}
+		}
 		var out []int
 		for c := range set {
 			out = append(out, c)
@@ -460,6 +470,10 @@ func tearCuts(e *rec.Event, thorough bool) []int {
 		if !thorough && len(out) > 6 {
 			out = out[:6]
 		}
+		for c := range prio {
+			out = append(out, c)
+		}
+		sortInts(out)
 		return out
 	case rec.WritePage:
 		if thorough {
